@@ -79,6 +79,12 @@ def main():
             if rc != 0:
                 print('patch does not apply:', out)
                 return 2
+            # does the change still break the property on this tree?  (a later repair may have made the code robust to it)
+            demo = os.path.join(dest, 'demo.py')
+            if os.path.exists(demo):
+                drc, dout = sh('timeout 600 %s %s' % (PY, demo), cwd=scratch, env={'PYTHONPATH': scratch})
+                meta['demo_on_head_with_change_rc'] = drc
+                print('demo on HEAD+change rc=%d (%s)' % (drc, 'still breaks the property' if drc else 'NEUTRALISED: the property holds with this change on the current tree'))
             for c in checks:
                 t0 = time.time()
                 rc, out = sh('bin/check %s --tier %s' % (c, a.tier), cwd=VERIF, timeout=7200,
